@@ -829,6 +829,45 @@ func c01ExtremeElements(c *core.Ctx) {
 	}
 }
 
+// c01TransientEntropyFaults: one single read of the entropy source fails - the k-th one made by an issuer's first
+// evaluation, for every k that evaluation reaches - and the source works again afterwards. Whatever the faulted call
+// returned, the same issuer and client then complete honest runs.
+func c01TransientEntropyFaults(c *core.Ctx, k1, k5 *oprf.PrivateKey, rk *rsa.PrivateKey) {
+	for ai := 0; ai < 4; ai++ {
+		for k := 1; k <= 24; k++ {
+			if !c.Next() {
+				continue
+			}
+			r := c.CaseRng()
+			a := c01Adapters(r, k1, k5, rk)[ai]
+			chal, nonces := r.Bytes(10), [][]byte{r.Bytes(32)}
+			reached := false
+			pan, _, _ := core.Guard(func() {
+				req, _, err := a.create(clone(chal), nonces, clone(a.kid), r, false, false)
+				if err != nil {
+					return
+				}
+				rx := clone(req())
+				reached = withEntropyFaultAtRead(k, func() { a.evaluate(rx, true) })
+			})
+			if pan {
+				c.Class("faulted_call_panicked_not_judged")
+				reached = true
+			}
+			if !reached {
+				c.Class("evaluation_makes_fewer_reads_than_the_fault_index")
+				continue
+			}
+			before := c.ViolationCount()
+			c01RunSession(c, a, r, 4, fmt.Sprintf("after-transient-entropy-fault-at-read-%d", k))
+			if c.ViolationCount() == before {
+				c.Class("issuer_serves_after_a_transient_entropy_fault")
+				c.Distinctf("transient-fault:%s:read-%d", a.name, k)
+			}
+		}
+	}
+}
+
 // c01EntropyFaultOnFirstUse: the entropy source fails during the very FIRST evaluation of a fresh issuer (and during
 // the first request creation / finalization of a fresh client); whatever that call returns, once the source works
 // again the same objects serve honest runs. One-time initialisation that failed must not have been recorded as done.
